@@ -5,6 +5,9 @@ Proof:  coq/Props/C01.v (infer_sound, infer_upper_sound, call_sound, compat_soun
         two modes whose results bracket what pytype prints (strict worlds <= pytype <= reaching definitions).
 Tie:    (a) generated L0 programs: `ceval` vs CPython exec value by value; model bounds vs the stub real pytype
         emits (io.generate_pyi): lower <= pytype <= upper on every name, hence EQUAL wherever the bounds coincide.
+        (a') generated L1 programs (classes, coq/Vm/ClassModel.v): `leval` vs CPython on every module-level value,
+        object class and instance dict; strict model bound <= the stub's type for every module-level name, every
+        `class K: a: T` declaration and every declared method return type; the property oracle on the real stub.
 Search: (b) the e2e oracle over the property's full fragment (classes, methods, attributes, lambdas, closures,
         comprehensions, subscripts, builtin calls, try/except): CPython values against the PRINTED stub types.
         This part is search, not proof; it is where replays for everything outside L0 come from.
@@ -24,6 +27,7 @@ import time
 
 import common
 import c01_l0 as L0
+import c01_l1 as L1
 import c01_e2e as E2E
 
 WORKERS = max(2, min(6, common.NCPU))
@@ -193,11 +197,12 @@ def py_value(enc):
   raise ValueError(enc)
 
 
-def run_model(tag, cases):
+def run_model(tag, cases, builder=None):
   """cases: list of (prog, names).  Returns list of parsed reports (or None where the batch failed), log."""
+  builder = builder or L0.cases_file
   files = []
   for i in range(0, len(cases), CASES_PER_FILE):
-    files.append(("c01_%s_%d" % (tag, i // CASES_PER_FILE), L0.cases_file(cases[i:i + CASES_PER_FILE])))
+    files.append(("c01_%s_%d" % (tag, i // CASES_PER_FILE), builder(cases[i:i + CASES_PER_FILE])))
   out = [None] * len(cases)
   log = ""
   for j in range(0, len(files), WORKERS):
@@ -366,6 +371,226 @@ def l0_part(res, pool, r, n_gen, corpus):
                      "wall_pytype_s": round(t_py, 1), "wall_coq_s": round(t_coq, 1)}
   return n_bad
 
+
+
+# ---------------------------------------------------------------------------------------
+# (a') L1 correspondence: classes (coq/Vm/ClassModel.v)
+
+def _first_wins(pairs):
+  d = {}
+  for a, toks in pairs:
+    d.setdefault(a, toks)
+  return d
+
+
+def _has_any(t):
+  if t == ("any",):
+    return True
+  if t[0] in ("gen", "tuple"):
+    return any(_has_any(x) for x in t[-1])
+  if t[0] == "homtuple":
+    return _has_any(t[1])
+  if t[0] == "union":
+    return any(_has_any(x) for x in t[1])
+  return False
+
+
+def _lower_fails(what, lo, pt, problems, stats, exact_key, dup):
+  """the strict bound is not below pytype's type: a disagreement unless the model itself gave up (its bound
+  contains Any: depth cut-off inside a method marks the whole heap unknown, far coarser than pytype) or pytype's
+  call cache can be involved (the same method called at two call sites; known finding call-cache:...)"""
+  if _has_any(lo):
+    stats[exact_key + "_lower_bound_is_any(model gave up)"] += 1
+  elif dup:
+    stats[exact_key + "_lower_bound_skipped(call cache)"] += 1
+  else:
+    problems.append("%s: lower bound %s is not below pytype %s" % (what, L0.show_ty(lo), L0.show_ty(pt)))
+
+
+def _sandwich(what, lo, up, pt, problems, stats, exact_key, upper_required=True, dup=False):
+  """lower <= pytype <= upper, equality where the bounds coincide.  For class members (upper_required=False) only the
+  lower bound - the direction that transfers soundness - is an obligation: the declarations also collect bindings
+  the model does not track (stores that a later store on the same path overwrites stay visible to
+  FilteredData(strict=False); Any from canonical calls); the excess is measured, not required to vanish."""
+  if not L0.ty_subset(pt, up):
+    if upper_required:
+      problems.append("%s: pytype %s is not below the upper bound %s" % (what, L0.show_ty(pt), L0.show_ty(up)))
+      return
+    stats[exact_key + "_above_upper"] += 1
+    if not L0.ty_subset(lo, pt):
+      _lower_fails(what, lo, pt, problems, stats, exact_key, dup)
+    return
+  if not L0.ty_subset(lo, pt):
+    _lower_fails(what, lo, pt, problems, stats, exact_key, dup)
+    return
+  if lo == up:
+    stats[exact_key + "_exact"] += 1
+    if L0.show_ty(pt) != L0.show_ty(lo):
+      problems.append("%s: model %s (bounds coincide) but pytype prints %s" % (what, L0.show_ty(lo), L0.show_ty(pt)))
+  else:
+    stats[exact_key + "_bracketed"] += 1
+
+
+def l1_compare(prog, obs, src, run, rep, pyi, perr, stats):
+  """Returns (correspondence problems, oracle violations) for one L1 program."""
+  problems, viols = [], []
+  names, onames, attrs, meths = obs
+  vals, objs, err = run
+  names_rep, attrs_rep, meths_rep, objs_rep, nworlds, conc = rep
+  dup = L1.repeated_method_call(prog)
+  # -- the concrete evaluator against CPython: module-level values, object classes, instance dicts
+  if vals is None:
+    if conc is not None:
+      problems.append("leval completes but CPython raises " + err)
+    stats["cpython_raises"] += 1
+    return problems, viols
+  if conc is None:
+    problems.append("leval fails but CPython completes")
+    return problems, viols
+  cvals, cobjs = conc[1]
+  for x, cv in zip(names, cvals):
+    pv = L0.enc_value(vals[x]) if x in vals else None
+    mv = L0.dec_value(cv[1])[0] if cv else None
+    if mv != pv:
+      problems.append("value of n%d: leval %r, CPython %r" % (x, mv, pv))
+  for o, co in zip(onames, cobjs):
+    po = objs.get(o)
+    if (co is None) != (po is None):
+      problems.append("object o%d: leval %r, CPython %r" % (o, co, po))
+      continue
+    if co is None:
+      continue
+    ccls, cattrs = co[1]
+    md = {a: L0.dec_value(t)[0] for a, t in _first_wins(cattrs).items()}
+    pd = {a: L0.enc_value(v) for a, v in po[1].items()}
+    if ccls != po[0] or md != pd:
+      problems.append("object o%d: leval K%d %r, CPython K%d %r" % (o, ccls, md, po[0], pd))
+    stats["attribute_values_compared"] += len(pd)
+  stats["values_compared"] += len(names)
+  # -- the stub
+  if pyi is None:
+    stats["pytype_failed"] += 1
+    if "Couldn't initialize typeshed" not in (perr or ""):
+      problems.append("pytype failed: " + str(perr))
+    return problems, viols
+  try:
+    consts, classes = L1.parse_stub(pyi)
+  except Exception as e:  # pylint: disable=broad-except
+    problems.append("stub does not parse: %r" % e)
+    return problems, viols
+  stats["worlds>1" if nworlds > 1 else "worlds=1"] += 1
+  # module-level value names
+  for x, (bs, lo, bl, up) in zip(names, names_rep):
+    if x not in vals:
+      continue
+    pt = consts.get("n%d" % x)
+    if pt is None:
+      problems.append("n%d is missing from the stub" % x)
+      continue
+    adm = E2E.admits(pt, vals[x], DUMMY_STUB)
+    stats["oracle_checks"] += 1
+    if adm is False:
+      viols.append({"kind": "name", "where": "n%d" % x, "type": L0.show_ty(pt), "value": repr(vals[x])[:200]})
+    if not bl:
+      problems.append("n%d is bound at run time but in no world of the model" % x)
+      continue
+    if not bs:
+      if not L0.ty_subset(pt, L0.dec_ty(up)[0]):
+        stats["names_above_upper"] += 1
+      continue
+    _sandwich("n%d" % x, L0.dec_ty(lo)[0], L0.dec_ty(up)[0], pt, problems, stats, "names", upper_required=False, dup=dup)
+  # object names: the class printed for o<i>
+  for o, (lo_c, up_c) in zip(onames, objs_rep):
+    if o not in objs:
+      continue
+    pt = consts.get("o%d" % o)
+    if pt is None:
+      problems.append("o%d is missing from the stub" % o)
+      continue
+    printed = {t[1] for t in (pt[1] if pt[0] == "union" else [pt]) if t[0] == "base"}
+    # a printed class stands for its subclasses too (SimplifyUnionsWithSuperclasses drops them from a union)
+    cover = {"K%d" % c for c in range(len(prog["classes"])) if any("K%d" % k in printed for k in L1.ancestors(prog, c))}
+    stats["oracle_checks"] += 1
+    if pt != ("any",) and "K%d" % objs[o][0] not in cover:
+      viols.append({"kind": "name", "where": "o%d" % o, "type": L0.show_ty(pt), "value": "K%d instance" % objs[o][0]})
+    if pt != ("any",) and not ({"K%d" % c for c in lo_c} <= cover and printed <= {"K%d" % c for c in up_c}):
+      problems.append("o%d: pytype %s, model classes %r..%r" % (o, L0.show_ty(pt), lo_c, up_c))
+  # instance attributes: the declaration on the object's exact class
+  for (c, a), (lo, up) in zip(attrs, attrs_rep):
+    lo_t, up_t = L0.dec_ty(lo)[0], L0.dec_ty(up)[0]
+    cattrs_written = any(a2 == a for a2, _ in prog["classes"][c]["cattrs"])
+    pt = classes.get("K%d" % c, ({}, {}))[0].get("a%d" % a)
+    # the property itself: run-time attribute values of the module-level instances of exactly this class
+    for o, (oc, od) in objs.items():
+      if oc == c and a in od and pt is not None:
+        stats["oracle_checks"] += 1
+        if E2E.admits(pt, od[a], DUMMY_STUB) is False:
+          viols.append({"kind": "attr", "where": "o%d.a%d" % (o, a), "type": L0.show_ty(pt),
+                        "value": repr(od[a])[:200]})
+    if cattrs_written:
+      continue                                  # declared through the class statement: a class-level constant too
+    if pt is None:
+      if up_t != ("nothing",) and lo_t != ("nothing",) and not _has_any(lo_t):
+        problems.append("K%d.a%d is missing from the stub (model %s)" % (c, a, L0.show_ty(lo_t)))
+      continue
+    _sandwich("K%d.a%d" % (c, a), lo_t, up_t, pt, problems, stats, "attrs", upper_required=False, dup=dup)
+  # declared return types (canonical analysis)
+  for (c, m), (lo, up) in zip(meths, meths_rep):
+    pt = classes.get("K%d" % c, ({}, {}))[1].get(L1.r_m(m))
+    if pt is None:
+      problems.append("K%d.%s is missing from the stub" % (c, L1.r_m(m)))
+      continue
+    _sandwich("K%d.%s()" % (c, L1.r_m(m)), L0.dec_ty(lo)[0], L0.dec_ty(up)[0], pt, problems, stats, "returns",
+              upper_required=False, dup=dup)
+  return problems, viols
+
+
+def l1_part(res, pool, r, n_gen, corpus):
+  stats = collections.Counter()
+  items = [(label, prog) for label, prog in corpus]
+  for i in range(n_gen):
+    items.append(("gen%d" % i, L1.generate(r)))
+  srcs = [L1.render(p) for _, p in items]
+  runs = [L1.run_cpython(s, len(p["classes"])) for s, (_, p) in zip(srcs, items)]
+  obs = [L1.observed(p) for _, p in items]
+  cases = [(p,) + o for (_, p), o in zip(items, obs)]
+  box = {}
+
+  def coq_thread():
+    t1 = time.time()
+    box["out"] = run_model("l1%s_%d" % (res.tier, res.seed % 100000), cases, L1.cases_file)
+    box["t"] = time.time() - t1
+  th = threading.Thread(target=coq_thread)
+  th.start()
+  t0 = time.time()
+  pyis = pool_pyi(pool, srcs)
+  t_py = time.time() - t0
+  th.join()
+  reps, log = box["out"]
+  res.obligation("model-run:L1", all(x is not None for x in reps), log[-2000:])
+  n_bad, first_bad, feats = 0, [], collections.Counter()
+  for (label, prog), ob, src, run_, rep, (pyi, perr) in zip(items, obs, srcs, runs, reps, pyis):
+    if rep is None:
+      continue
+    problems, viols = l1_compare(prog, ob, src, run_, rep, pyi, perr, stats)
+    if run_[0] is not None:
+      for f in ("super().", "K1, K2", ".a0 = ", "if n"):
+        if f in src:
+          feats[f] += 1
+    res.count(hashlib.sha1(src.encode()).hexdigest() if run_[0] is not None else None)
+    if len(res.samples) < 3 and run_[0] is not None and "super()." in src and len(src) < 700 and not problems:
+      res.sample({"l1_program": src, "pytype_stub": pyi})
+    for v in viols:
+      report_violation(res, "l1", src, [], v, pool)
+    if problems:
+      n_bad += 1
+      if len(first_bad) < 3:
+        first_bad.append({"case": label, "problems": problems[:4], "src": src, "pyi": pyi})
+  res.obligation("correspondence:L1-model-vs-pytype-and-CPython", n_bad == 0,
+                 "%d of %d programs disagree; first: %s" % (n_bad, len(items), json.dumps(first_bad)[:4000]))
+  res.extra["l1"] = {"programs": len(items), "stats": dict(stats), "features(completing programs)": dict(feats),
+                     "wall_pytype_s": round(t_py, 1), "wall_coq_s": round(box["t"], 1)}
+  return n_bad
 
 # ---------------------------------------------------------------------------------------
 # (b) e2e oracle
@@ -712,7 +937,7 @@ def e2e_part(res, pool, r, n_gen, corpus):
 # ---------------------------------------------------------------------------------------
 
 def load_corpus():
-  l0, e2e = [], []
+  l0, e2e, l1 = [], [], []
   d = os.path.join(common.CORPUS, "C01")
   for f in sorted(os.listdir(d)) if os.path.isdir(d) else []:
     if not f.endswith(".json"):
@@ -720,9 +945,21 @@ def load_corpus():
     o = json.load(open(os.path.join(d, f)))
     if o.get("kind") == "l0":
       l0.append(("corpus:" + f, untuple(o["prog"])))
+    elif o.get("kind") == "l1":
+      l1.append(("corpus:" + f, untuple_l1(o["prog"])))
     else:
       e2e.append(("corpus:" + f, o["src"], [tuple(c) for c in o.get("calls", [])]))
-  return l0, e2e
+  return l0, e2e, l1
+
+
+def untuple_l1(p):
+  """json -> the structure c01_l1 expects"""
+  def ls(s):
+    s = untuple(s)
+    return s
+  return {"classes": [{"bases": c["bases"], "cattrs": [(a, untuple(e)) for a, e in c["cattrs"]],
+                       "meths": [(m, ps, [ls(x) for x in b]) for m, ps, b in c["meths"]]} for c in p["classes"]],
+          "body": [untuple(t) for t in p["body"]]}
 
 
 def untuple(x):
@@ -783,13 +1020,15 @@ def run(res):
   n_l0, n_e2e = (2500, 6000) if thorough else (150, 300)
   if drift and not thorough:
     n_l0, n_e2e = 450, 600
-  corpus_l0, corpus_e2e = load_corpus()
+  n_l1 = 600 if thorough else (60 if drift else 30)
+  corpus_l0, corpus_e2e, corpus_l1 = load_corpus()
   r1 = common.rng(res.seed, "c01", "l0")
   r2 = common.rng(res.seed, "c01", "e2e")
   # spawn (not fork): the L0 leg runs coqc from a thread while the pool is busy
   ctx = multiprocessing.get_context("spawn")
   with concurrent.futures.ProcessPoolExecutor(max_workers=WORKERS, mp_context=ctx, initializer=_worker_init) as pool:
     l0_part(res, pool, r1, n_l0, corpus_l0)
+    l1_part(res, pool, common.rng(res.seed, "c01", "l1"), n_l1, corpus_l1)
     e2e_part(res, pool, r2, n_e2e, corpus_e2e)
   if thorough:
     ok, out = common_coqchk("C01")
